@@ -430,9 +430,11 @@ func (t *streamable) Handshake() string {
 	if sid != "" {
 		req, _ := http.NewRequest("DELETE", t.fx.URL, nil)
 		req.Header.Set("Mcp-Session-Id", sid)
-		if resp, err := t.fresh.Do(req); err == nil {
-			resp.Body.Close()
+		resp, err := t.fresh.Do(req)
+		if err != nil {
+			return "DELETE of the new session: " + err.Error()
 		}
+		resp.Body.Close()
 	}
 	return ""
 }
@@ -455,6 +457,9 @@ func (t *streamable) Exchange(in Input) Observed {
 		if err != nil {
 			o.Status = intp(0)
 			o.Problems = append(o.Problems, "transport: "+err.Error())
+			if isTimeout(err) {
+				o.Dead = true // a GET that is never answered: every further one would cost the ceiling again
+			}
 		} else {
 			o.Status = intp(resp.StatusCode)
 			if resp.StatusCode != 200 {
